@@ -14,6 +14,7 @@ import (
 	"strings"
 	"sync"
 	"sync/atomic"
+	"time"
 )
 
 // DefaultScanPageSize is the number of keys SCAN examines per call when no
@@ -264,6 +265,7 @@ func (s *Server) exec(args [][]byte, viaNet bool) (reply interface{}, err error,
 	if !arityOK(ci.arity, len(args)) {
 		return nil, Error("ERR wrong number of arguments for '" + strings.ToLower(name) + "' command"), false
 	}
+	s.st.purge(time.Now())
 	reply, err = ci.fn(s.st, args[1:], &s.opt)
 	if ci.mutating && err == nil {
 		s.record(name, args)
